@@ -89,7 +89,15 @@ func c01prop(r *simkit.Run) {
 		w.applyAdminToModel(op)
 	}
 	// tail of the prior history: leave the iterator mid-cycle, then make one last change
-	switch rapid.IntRange(0, 3).Draw(rt, "tail") {
+	switch rapid.IntRange(0, 4).Draw(rt, "tail") {
+	case 4: // the last change is a refused update that may have applied its first option
+		j := rapid.IntRange(0, n-1).Draw(rt, "tail-server")
+		for k := rapid.IntRange(0, 5).Draw(rt, "tail-selections"); k > 0; k-- {
+			w.sim.RunTask(w.opNext().task)
+		}
+		op := w.opUpsertPartlyBad(mustURL(chosen[j]), rapid.IntRange(1, 9).Draw(rt, "tail-weight"))
+		w.sim.RunTask(op.task)
+		w.adoptAfterPartlyBad(op)
 	case 1: // re-weight one server away and back with selections in between
 		j := rapid.IntRange(0, n-1).Draw(rt, "tail-server")
 		tmp := w.opUpsert(mustURL(chosen[j]), true, ws[j]+rapid.IntRange(1, 7).Draw(rt, "tail-delta"))
